@@ -70,6 +70,17 @@ def main():
                 os.makedirs(td, exist_ok=True)
                 open(os.path.join(td, "patch.diff"), "w").write(diff)
                 json.dump({"properties": prop.split(","), "expect": "pass", "why": os.environ.get("TWIN_WHY", "")}, open(os.path.join(td, "meta.json"), "w"), indent=1)
+            name = os.environ.get("SAVE_MUTANT")
+            if name:
+                # record the edit as a checker regression mutant (written by the author of the checker, not an independent seed)
+                import difflib, json
+                a = open(os.path.join("/repo", rel)).read().splitlines(keepends=True)
+                b = s.splitlines(keepends=True)
+                diff = "".join(difflib.unified_diff(a, b, "a/" + rel, "b/" + rel))
+                td = os.path.join(HERE, "mutants", name)
+                os.makedirs(td, exist_ok=True)
+                open(os.path.join(td, "patch.diff"), "w").write(diff)
+                json.dump({"properties": prop.split(","), "expect": "violation", "why": os.environ.get("MUTANT_WHY", "")}, open(os.path.join(td, "meta.json"), "w"), indent=1)
         for pr in prop.split(","):
             rc, out = run_check(pr, d)
             lines = [l for l in out.splitlines() if l.startswith(("VIOLATION", "ANALYSIS", "KNOWN", "  C")) or l.startswith("[")]
